@@ -238,6 +238,7 @@ class Walker:
         max_paths: int = 400000,
         max_depth: int = 4,
         unroll: int = 2,
+        exact_loops: bool = False,
     ):
         self.prog = prog
         self.resolver = resolver or Resolver(prog)
@@ -254,6 +255,10 @@ class Walker:
         self.max_paths = max_paths
         self.max_depth = max_depth
         self.unroll = unroll
+        # exact_loops: the walker is used as an evaluator on constants - every iteration continues exactly from the
+        # state the previous one left (nothing is forgotten); a loop still running after `unroll` iterations ends the
+        # path with the pseudo exception "UnrollLimit" instead of being summarised
+        self.exact_loops = exact_loops
         self._budget = 0
         self.frame: Tuple[Optional[FuncInfo], Optional[ClassInfo]] = (None, None)
 
@@ -454,8 +459,47 @@ class Walker:
 
     def s_Assign(self, stmt, st):
         def cont(v, s):
+            outs = [s]
             for t in stmt.targets:
+                base_before = self._lookup(t.value, s) if isinstance(t, ast.Subscript) else None
                 self._bind(s, t, v, stmt)
+                if isinstance(t, ast.Subscript) and base_before is not None and base_before.kind == "const" \
+                        and isinstance(base_before.value, (dict, list)):
+                    # the container changes: a constant value known for it is updated (constant key and value) or forgotten
+                    newbase = UNK
+                    try:
+                        kres = self.eval(t.slice, s) if not isinstance(t.slice, ast.Slice) else []
+                    except PathLimit:
+                        raise
+                    except Exception:
+                        kres = []
+                    if len(kres) == 1 and kres[0][0] == "val" and kres[0][1].kind == "const" and v.kind == "const":
+                        import copy as _copy
+
+                        try:
+                            c = _copy.copy(base_before.value)
+                            c[kres[0][1].value] = v.value
+                            newbase = Const(c)
+                        except Exception:
+                            newbase = UNK
+                    if isinstance(t.value, ast.Name):
+                        s.env[t.value.id] = newbase
+                    else:
+                        s.facts[norm(t.value)] = newbase
+                # container[<expr>] = v: when the key evaluates to a constant the element is also known under that
+                # constant key (`d[k.lower()] = v` is later read as `d['accept']`)
+                if isinstance(t, ast.Subscript) and not isinstance(t.slice, (ast.Slice, ast.Constant)) and v.kind == "const":
+                    try:
+                        res = self.eval(t.slice, s)
+                    except PathLimit:
+                        raise
+                    except Exception:
+                        res = []
+                    if len(res) == 1 and res[0][0] == "val" and res[0][1].kind == "const" and isinstance(res[0][1].value, (str, int, bytes)):
+                        s2 = res[0][2]
+                        s2.facts[f"{norm(t.value)}[{res[0][1].value!r}]"] = v
+                        outs = [s2]
+                        s = s2
             return [("next", None, s)]
         return self._vals(self.eval(stmt.value, st), cont)
 
@@ -576,7 +620,7 @@ class Walker:
                     continue
                 merged_done.add(it)
                 s = entry.copy()
-            if it >= 1:
+            if it >= 1 and not self.exact_loops:
                 # later iterations: forget loop-assigned names (sound for any iteration)
                 self._havoc(s, body)
             for enter, s2 in test_fn(s, it):
@@ -592,16 +636,18 @@ class Walker:
                     branches = [(True, s2), (False, s2.copy())]
                 for go, s3 in branches:
                     if not go:
-                        if it >= 1:
+                        if it >= 1 and not self.exact_loops:
                             self._havoc(s3, body)
                         out.extend(self.exec_block(orelse, s3))
                         continue
                     if it >= self.unroll:
+                        if self.exact_loops:
+                            out.append(("raise", "UnrollLimit", s3))
                         continue  # deeper iterations are represented by the havocked one
                     bind_fn(s3, it)
                     for k, v, s4 in self.exec_block(body, s3):
                         if k == "break":
-                            self._havoc(s4, body) if it >= 1 else None
+                            self._havoc(s4, body) if (it >= 1 and not self.exact_loops) else None
                             out.append(("next", None, s4))
                         elif k in ("next", "continue"):
                             pending.append((s4, it + 1))
@@ -922,7 +968,13 @@ class Walker:
                 if known is not None:
                     return [("val", Const(known), st)]
                 return [("val", UNK, st)]
-        return self._seq([node.value], st, lambda vals, s: [("val", UNK, s)])
+        def cont_attr(vals, s):
+            b = vals[0]
+            # fields of a constant named tuple (urlparse() results)
+            if b.kind == "const" and isinstance(b.value, tuple) and node.attr in getattr(type(b.value), "_fields", ()):
+                return [("val", Const(getattr(b.value, node.attr)), s)]
+            return [("val", UNK, s)]
+        return self._seq([node.value], st, cont_attr)
 
     def e_Subscript(self, node, st):
         def cont(vals, s):
@@ -1209,6 +1261,16 @@ class Walker:
                 return [("val", Const(fn(*[a.value for a in args])), s)]
             except Exception:
                 pass
+        if name in PURE_URL_FUNCS and args and all(a.kind == "const" for a in args) and all(v.kind == "const" for v in kws.values()):
+            import urllib.parse as _up
+
+            try:
+                return [("val", Const(getattr(_up, name.split(".")[-1])(*[a.value for a in args], **{k: v.value for k, v in kws.items()})), s)]
+            except ValueError:
+                s.add(Event("raise", node, "ValueError", self.frame, "implicit"))
+                return [("raise", "ValueError", s)]
+            except Exception:
+                pass
         if name in ("re.search", "re.match", "re.fullmatch") and len(args) == 2 and all(a.kind == "const" for a in args) and not kws \
                 and isinstance(args[0].value, (str, bytes)) and isinstance(args[1].value, type(args[0].value)):
             import re as _re
@@ -1360,6 +1422,9 @@ PURE_STR_METHODS = {"startswith", "endswith", "strip", "lstrip", "rstrip", "lowe
                     "isdigit", "isalpha", "isspace", "removeprefix", "removesuffix", "replace", "split", "rsplit",
                     "partition", "rpartition", "title", "capitalize", "index", "rindex", "zfill"}
 # pure functions of the standard library that may be folded on constant arguments (POSIX semantics)
+# pure functions of urllib.parse, folded on constant arguments (keyword arguments included)
+PURE_URL_FUNCS = {"urllib.parse.unquote", "urllib.parse.unquote_plus", "urllib.parse.unquote_to_bytes", "urllib.parse.quote",
+                  "urllib.parse.quote_plus", "urllib.parse.urlparse", "urllib.parse.urlsplit", "urllib.parse.parse_qs", "urllib.parse.parse_qsl"}
 PURE_EXT_FUNCS = {"os.path.join", "os.path.normpath", "os.path.dirname", "os.path.basename", "os.path.split", "os.path.isabs",
                   "posixpath.join", "posixpath.normpath", "posixpath.dirname", "posixpath.basename", "posixpath.split"}
 EXT_CONSTS = {
